@@ -1,6 +1,7 @@
 import DcmVerif.Generated.Code
 import DcmVerif.Model.Ext
 import DcmVerif.Model.Stack
+import DcmVerif.Model.Wrap
 /-! The functions `tools/gen_code.py` translates from the Python source (`Generated/Code.lean`,
 namespace `Py`) are equal to the hand-written model functions the property theorems are about.
 These proofs are re-checked against what the source says on every run: an edit of
@@ -326,5 +327,13 @@ theorem acceptB_counts (spacingOk : List Int → Bool) (files : List F) :
   simp [acceptB, countsOk, Bool.and_assoc]
 
 end shape_counts
+
+/-! ### trimming of unused axes in `get_data` -/
+
+/-- **the trimming block of `get_data` as written in dcmstack.py is the model's `stackTrim`** -/
+theorem get_data_trim_eq (a : Wrap.Arr α) (rows cols S T V : Nat) :
+    Py.get_data_trim a [rows, cols, S, T, V] = .ok (Wrap.stackTrim a T V) := by
+  by_cases hV : V = 1 <;> by_cases hT : T = 1 <;>
+    simp [Py.get_data_trim, Wrap.stackTrim, hV, hT, pure, Except.pure]
 
 end Src
